@@ -170,14 +170,17 @@ def gen(tier, rnd):
             return SpurGear(name, teeth, J, **kw) if cls == 'spur' else HelicalGear(name, teeth, J, Angle(18, 'deg'), **kw)
         a, b, c = mk('a', 17, 0.012, 2.1e11), mk('b', 41, 0.009, 1.1e11), mk('c', 23, 0.02, 0.7e11)
         add_gear_mating(a, b, 0.9)
-        add_gear_mating(a, c, 0.8)                 # the master gets a new slave
+        evs.append(pair_event(eid(), a, b, True, tq))   # force and stresses are computed with the first partner ...
+        add_gear_mating(a, c, 0.8)                 # ... then the master gets a new slave
         evs.append(pair_event(eid(), a, c, True, tq))
         a, b, c = mk('a', 17, 0.012, 2.1e11), mk('b', 41, 0.009, 1.1e11), mk('c', 23, 0.02, 0.7e11)
         add_gear_mating(a, b, 0.9)
+        evs.append(pair_event(eid(), a, b, True, tq))
         add_gear_mating(c, b, 0.8)                 # the slave gets a new master
         evs.append(pair_event(eid(), c, b, True, tq))
         a, b, c = mk('a', 17, 0.012, 2.1e11), mk('b', 41, 0.009, 1.1e11), mk('c', 23, 0.02, 0.7e11)
         add_gear_mating(a, b, 0.9)
+        evs.append(pair_event(eid(), a, b, True, tq))
         add_gear_mating(b, c, 0.8)                 # the slave becomes the master of a third gear: its role and reference torque change
         evs.append(pair_event(eid(), b, c, True, tq))
     for al, hx in ((20, 12.0), (30, 41.0)):
@@ -185,6 +188,7 @@ def gen(tier, rnd):
         w2 = WormGear('w2', 1, J, Angle(hx, 'deg'), Angle(al, 'deg'), reference_diameter=L(0.035))
         wh = WormWheel('h', 30, J, Angle(hx, 'deg'), Angle(al, 'deg'), module=L(0.002), face_width=L(0.03))
         add_worm_gear_mating(w1, wh, 0.05)
+        evs.append(pair_event(eid(), w1, wh, True, tq))
         add_worm_gear_mating(w2, wh, 0.05)         # the wheel is re-mated with a worm of another diameter
         evs.append(pair_event(eid(), w2, wh, True, tq))
     # (c) formula grids with seeded random parameters, units and torques of either sign
